@@ -306,6 +306,41 @@ def run(ctx):
         ctx.ob("R7.exposed-family-comes-from-registry", "try_initialize.created-family-not-returned", bool(fam) and not leaks, ti2.loc(),
                f"family() creation sites {len(fam)}; the created family flows into the return value: {leaks}")
     provider_door_rule(ctx, prog)
+    # a function that can make other threads WAIT (it waits on a condition variable for a condition it also sets) releases them
+    # on every way out: each return reachable after its wait passes a notify. (No such construct exists on the pinned tree - first
+    # access is arbitrated by the registry lock alone; the rule arms itself when one is introduced.)
+    for b in prog.bodies:
+        if b.crate != "linked" or "::tests" in b.key:
+            continue
+        waits = [bb for bb, t in b.calls() if t["callee"].get("method") in ("wait", "wait_while", "wait_timeout", "wait_timeout_while") and "Condvar" in callee_key(t["callee"]) and not b.blocks[bb].cleanup]
+        if not waits:
+            continue
+        ctx.fn(b)
+        notifs = [bb for bb, t in b.calls() if t["callee"].get("method") in ("notify_all", "notify_one") and "Condvar" in callee_key(t["callee"]) and not b.blocks[bb].cleanup]
+        okp = bool(notifs)
+        if okp:
+            for w in waits:
+                r = b.reachable(b.term_succ(w, False), unwind=False, avoid=notifs)
+                # leaving through the wait loop again is fine; a return is not
+                if any(e in r for e in b.exits(("return",))):
+                    okp = False
+        ctx.rule("R9.waiters-are-released", "a function that waits on a condition variable for a condition it sets itself notifies on every return path after the wait", floor=None) if "R9.waiters-are-released" not in ctx.rules else None
+        ctx.ob("R9.waiters-are-released", short(b.key), okp, b.loc(),
+               f"Condvar waits {len(waits)}, notifies {len(notifs)}; every return after a wait passes a notify: {okp}" +
+               ("" if okp else " - the marker that makes other first-access threads wait is left behind on that path: they wait for ever"))
+    # a CLONE of a Send reference is aligned to the same thread as the reference it was cloned from - wherever the clone is made:
+    # nothing on the clone path may ask which thread is running (only acquire() may)
+    ncl = 0
+    for b in prog.bodies:
+        if b.name == "clone" and (b.impl_trait or "").endswith("clone::Clone") and (b.impl_adt or "").endswith("instance_per_thread_sync::RefSync") and "::tests" not in b.key:
+            ncl += 1
+            ctx.fn(b)
+            chain = reaches(prog, uc, b, "std::thread::current")
+            ctx.ob("R2.cleanup-keyed-by-origin", "RefSync::clone.keeps-its-origin", chain is None, b.loc(),
+                   f"thread::current() reachable from RefSync::clone: {chain or 'no'}" +
+                   ("" if chain is None else " - a clone made on another thread is recorded as belonging to THAT thread: its drop clears the wrong entry and the origin thread's instance is never dropped"))
+    if ncl == 0:
+        ctx.missing("R2.cleanup-keyed-by-origin", "Clone for RefSync")
 
 
 def provider_door_rule(ctx, prog):
